@@ -28,11 +28,18 @@ WHOLE_PATHS = {"n": [["r", I("n")]], "l": [["r", I("l")]], "o": [["r", I("o")]],
                "d": [["r", I("d")], ["r", I("d"), I("m")]], "asub": [["a", A("sub")]]}
 
 
+# a second family: backslashes (followed by a letter that forms an escape, or at the end of the key) and control characters
+HOSTILE_NAMES_B = {"x": "\\theta", "y": "c:\\new", "z": "tail\\", "u": "line\nbreak", "w": "tab\there", "g": "nul\x00x",
+                   "t1": "\\", "t2": "it's\\n", "t3": "\r", "t4": "a\\'b", "v3": "\\x41", "v4": "q\\"}
+
+
 def make_world(rng, layered=True, n_flat=None, hostile=False):
     """Returns (world spec, locs) where locs = [dict(path, group, kind, layer)].
-    hostile=True renames keys to text containing quotes, brackets, dots and container labels."""
+    hostile=True renames keys to text containing quotes, brackets, dots and container labels, or (second family)
+    backslashes and control characters."""
     world, locs = _make_world(rng, layered, n_flat)
     if hostile:
+        HOSTILE_NAMES = globals()["HOSTILE_NAMES"] if rng.random() < 0.6 else HOSTILE_NAMES_B
         def ren(x):
             if isinstance(x, dict):
                 if set(x) == {"s"} and x["s"] in HOSTILE_NAMES:
